@@ -48,6 +48,55 @@ fn main() {
     if args[0] == "--worker" {
         rv::worker::worker_main();
     }
+    if args[0] == "--dump-corpus" {
+        // rv --dump-corpus <query|defs> <dir>: seed corpus and dictionary for the libFuzzer campaigns
+        let target = args.get(1).map(|s| s.as_str()).unwrap_or("query");
+        let dir = std::path::PathBuf::from(args.get(2).cloned().unwrap_or_else(|| "corpus".into()));
+        std::fs::create_dir_all(&dir).expect("corpus dir");
+        let mut n = 0;
+        let mut put = |text: &str| {
+            let name = format!("seed-{:016x}", rv::engine::hash_of(text));
+            let _ = std::fs::write(dir.join(name), text);
+            n += 1;
+        };
+        let mut dict: Vec<String> = vec![];
+        if target == "query" {
+            for q in rv::gen::query::corpus_from_repo() {
+                if q.chars().count() <= 300 {
+                    put(&q);
+                }
+            }
+            for k in rv::gen::query::KEYWORDS.iter().chain(rv::gen::query::OPS.iter()).chain(rv::gen::query::FUNCS.iter()).chain(rv::gen::query::DEGREES.iter()) {
+                dict.push(k.to_string());
+            }
+            for w in ["#2020-01-01#", "\\u", "1e", "0x", "0b", "0o", "digits 5", "base 16", "+05:00", "US/Pacific", "water", "H2O", "meter", "foot", "kg", "hour;min;sec"] {
+                dict.push(w.to_string());
+            }
+        } else {
+            let defs = rink_core::DEFAULT_FILE.unwrap_or("");
+            let lines: Vec<&str> = defs.lines().collect();
+            for chunk in lines.chunks(40).step_by(9) {
+                put(&chunk.join("\n"));
+            }
+            put(rink_core::CURRENCY_FILE.unwrap_or(""));
+            put(rink_core::DATES_FILE.unwrap_or(""));
+            if let Ok(js) = std::fs::read_to_string("/repo/core/tests/currency.snapshot.json") {
+                put(&js);
+            }
+            put("ba !\nu0 3 ba\nk- 1000\nkk-- k\nq0 ? ba\nsub0 {\n  p const i 3 u0\n  d o 2 u0 / j 1 ba\n}\n!category c \"C\"\n?? doc\nu1 2 ku0\n!endcategory\n");
+            for w in ["!category", "!endcategory", "!symbol", "??", "const", "{", "}", "--", "-", "!", "?", "|", "^", "\\\n", "[\n{\"name\":\"X\",\"type\":\"unit\",\"expr\":\"1\"}]"] {
+                dict.push(w.to_string());
+            }
+        }
+        let mut d = String::new();
+        for w in dict {
+            let esc: String = w.bytes().map(|b| if b.is_ascii_graphic() && b != b'"' && b != b'\\' { (b as char).to_string() } else { format!("\\x{:02x}", b) }).collect();
+            d.push_str(&format!("\"{}\"\n", esc));
+        }
+        let _ = std::fs::write(dir.with_extension("dict"), d);
+        println!("wrote {} corpus files to {}", n, dir.display());
+        return;
+    }
     let id = args[0].clone();
     let mut tier = match std::env::var("VERIF_TIER").ok().as_deref() {
         Some("thorough") => Tier::Thorough,
